@@ -3,7 +3,7 @@ from .. import simprop
 
 ID = "C14"
 FAMILY = "C14"
-VARIANTS = ("asan",)
+VARIANTS = ("asan", "rel")      # rel: only to re-judge a case that UBSan stopped (simprop)
 BUDGET = {"quick": dict(examples=80000, seconds=55), "thorough": dict(examples=2000000, seconds=540)}
 NONTRIVIAL = {'recording-rich-history', 'recording-several-windows'}
 PROFILES = [(4, 'recording'), (1, 'mixed')]
